@@ -604,3 +604,101 @@ def vs_oracle(op, A, B, extra, r):
                     return ("unsound", "x=%d y=%d: %d missing" % (x, y, z))
         return None
     return None
+
+
+# ---------------------------------------------------------------------------------------------- sequences: a result compared with its own operand
+# `==` on intervals answers by NAME first, sets and value sets compare through their member intervals: a result that keeps (the
+# name of) an operand's interval although the value changed compares equal to it.  One object a, r = a OP b, then r cmp a.
+SEQ_DS_OPS = ["add", "sub", "and", "or", "xor", "mul", "lshr", "shl", "ashr", "udiv", "mod", "opneg", "not", "union"]
+SEQ_VS_OPS = ["add", "sub", "and", "mod", "union", "intersection"]
+
+
+def seq_real(cont, op, A, B):
+    """-> ('val', (canonical r, ((cmp, order, canonical BoolResult), ...))) | ('err', kind) when the derivation raises"""
+    try:
+        if cont == "d":
+            a = mk_dsis(A[1], A[2])
+            b = None if B is None else (mk_dsis(B[1], B[2]) if B[0] == "d" else vsa.mk(B[1]))
+            if op in DS_UN:
+                r = DS_UN[op][0](a)
+            elif op == "union":
+                r = a.union(b)
+            else:
+                r = DS_BIN[op][0](a, b)
+            cmps = DS_CMP
+        else:
+            a = mk_vs(A[1], A[2])
+            b = mk_vs(B[1], B[2]) if B[0] == "v" else vsa.mk(B[1])
+            r = VS_HIST[op](a, b)
+            cmps = {"eq": DS_CMP["eq"], "ne": DS_CMP["ne"]}
+    except RecursionError:
+        return ("err", "RecursionError")
+    except Exception as e:  # noqa
+        return ("err", type(e).__name__)
+    out = []
+    for c, (fn, _) in cmps.items():
+        out.append((c, "LR", call(fn, r, a)))
+        out.append((c, "RL", call(fn, a, r)))
+    return ("val", (canon_obj(r), tuple(out)))
+
+
+def seq_oracle(cont, op, A, B, r):
+    """-> None | (kind, detail, cmp, canonical r).  The truth values over the joint choices: the member x of a (the same on
+    both sides), the member y of b."""
+    if r[0] == "err":
+        return None                  # the plain case of this operation reports it
+    cr, results = r[1]
+    w = A[1]
+    pairs = set()                    # (value of r, value of a); value-set members are (region, offset)
+    if cont == "d":
+        if cr[0] not in ("si", "dsis") or not res_wf(cr):
+            return None
+        ga = members_of(A)
+        gb = members_of(B) if B is not None else [None]
+        for x in ga:
+            for y in gb:
+                if op == "union":
+                    zs = (x, y)
+                elif op in DS_UN:
+                    zs = (DS_UN[op][1](x, w),)
+                else:
+                    zs = (DS_BIN[op][1](x, y, w),)
+                for z in zs:
+                    if z is not None:
+                        if not res_member(cr, z):
+                            return None          # the derivation itself is unsound: the plain case reports it
+                        pairs.add((z, x))
+        conc = lambda c, p, q: DS_CMP[c][1](p, q, w)  # noqa: E731
+    else:
+        if cr[0] != "vs":
+            return None
+        mb = ([(reg, y) for reg, t in B[2].items() for y in vsa.gamma(t)] if B[0] == "v" else [(None, y) for y in vsa.gamma(B[1])])
+        for reg, t in A[2].items():
+            for x in vsa.gamma(t):
+                for (rb, y) in mb:
+                    if op in VS_OPS_SI:
+                        if rb is not None:
+                            return None
+                        z = VS_OPS_SI[op][1](x, y, w)
+                        zs = [] if z is None else [(reg, z)]
+                    elif op == "union":
+                        zs = [(reg, x), (rb if rb is not None else reg, y)]
+                    else:       # intersection: the value is in both
+                        zs = [(reg, x)] if (rb in (None, reg) and x == y) else []
+                    for z in zs:
+                        if not vs_region_member(cr, z[0], z[1]):
+                            return None
+                        pairs.add((z, (reg, x)))
+        conc = lambda c, p, q: (p == q) if c == "eq" else (p != q)  # noqa: E731
+    if not pairs:
+        return None
+    for c, order, res in results:
+        if res[0] != "bool":
+            continue                 # comparison raises / not defined for this pair of types: plain cases
+        need = {"T" if (conc(c, p, q) if order == "LR" else conc(c, q, p)) else "F" for p, q in pairs}
+        miss = need - set(res[1])
+        if miss:
+            p, q = next((p, q) for p, q in sorted(pairs, key=str) if ("T" if (conc(c, p, q) if order == "LR" else conc(c, q, p)) else "F") in miss)
+            return ("unsound", "r = a %s b = %s; %s(%s): r=%s a=%s gives %s, result {%s}" % (
+                op, cr, c, "r, a" if order == "LR" else "a, r", p, q, sorted(miss)[0], res[1]), c, cr)
+    return None
